@@ -7,7 +7,8 @@ from jv import objd, real, refline, stream
 LEVEL = "exploration"
 RULE = ("ELF64/ELF32 objects written by the harness with 1-4 executable sections of distinct random content (some placed at "
         "lower addresses than earlier ones) plus data sections, x `config.sections` absent / one / several / reordered / "
-        "with names not present / naming a data section; also tests/binary/*.bin. The binary route (MasterOfPuppets, "
+        "with names not present / naming a data section, optionally together with other config keys (style: att, valid_addr_range, "
+        "full-match flags) given identically to both routes; also tests/binary/*.bin. The binary route (MasterOfPuppets, "
         "InputFileType.binary) is compared with the assembly route fed with the harness's own `objdump -d -M att` output "
         "restricted to the named sections by the harness (reference A) and, as second reference, with the harness's own "
         "`-j` invocation (reference B): stream equal, and for a rule derived from the listing the address list equal in both "
@@ -58,15 +59,19 @@ def assembly_stream(ws, text, cfg_rule):
     return objd.real_stream(ws, p, rule_text=cfg_rule)
 
 
-def rule_text(sections, pattern="zzzzzz"):
+def rule_text(sections, pattern="zzzzzz", extra=None):
     doc = {}
+    cfg = dict(extra or {})
     if sections is not None:
-        doc["config"] = {"sections": list(sections)}
+        cfg["sections"] = list(sections)
+    if cfg:
+        doc["config"] = cfg
     doc["pattern"] = [pattern]
     return real.dump_rule(doc)
 
 
-def judge(ctx, ws, blob, sections, origin, exec_names, all_names):
+def judge(ctx, ws, blob, sections, origin, exec_names, all_names, extra=None):
+    """extra: further config keys (style, valid_addr_range, flags) given identically to both routes."""
     op = ws.write("o.bin", blob)
     rc_full, full, _ = objd.disassemble(op)
     if rc_full != 0:
@@ -74,16 +79,18 @@ def judge(ctx, ws, blob, sections, origin, exec_names, all_names):
         return
     textA = filter_sections(full, set(sections)) if sections else full
     rcB, textB, errB = objd.disassemble(op, sections=sections) if sections else (rc_full, full, "")
-    rt = rule_text(sections)
+    rt = rule_text(sections, extra=extra)
     del SPAWNS[:]
     rR = objd.real_stream(ws, op, binary=True, rule_text=rt)
     ctx.ran()
     spawn = SPAWNS[-1] if SPAWNS else None
     if spawn:
         ctx.event("objdump_spawns_observed")
-    rA = assembly_stream(ws, textA, rule_text(None))
+    rA = assembly_stream(ws, textA, rule_text(None, extra=extra))
     ctx.ran()
-    case = {"origin": origin, "sections": sections, "object_b64": __import__("base64").b64encode(blob).decode(), "argv_observed": spawn}
+    if extra:
+        ctx.event("cases_with_other_config_keys")
+    case = {"origin": origin, "sections": sections, "extra_config": extra, "object_b64": __import__("base64").b64encode(blob).decode(), "argv_observed": spawn}
     nontrivial = len(exec_names) >= 2 or sections is not None
     ctx.case((real.__name__, __import__("hashlib").sha256(blob).hexdigest(), sections), nontrivial,
              stratum=("no sections" if sections is None else "absent-only" if not (set(sections) & set(all_names)) else
@@ -103,7 +110,7 @@ def judge(ctx, ws, blob, sections, origin, exec_names, all_names):
     if rR[0] != "ok":
         ctx.disagreement(case, f"binary route raised {rR[1]}: {rR[2]} although objdump disassembles the object (argv seen: {spawn})")
         return
-    rB = assembly_stream(ws, textB, rule_text(None)) if sections else rA
+    rB = assembly_stream(ws, textB, rule_text(None, extra=extra)) if sections else rA
     ctx.ran()
     acceptable = {rA[1]}
     names_data = bool(sections) and bool(set(sections) & (set(all_names) - set(exec_names)))
@@ -128,10 +135,10 @@ def judge(ctx, ws, blob, sections, origin, exec_names, all_names):
         name = ri.parsed.mnemonic
         if name.isalnum():
             for search in ("all", "first"):
-                rtx = rule_text(sections, name)
+                rtx = rule_text(sections, name, extra=extra)
                 rp = ws.write("r.yaml", rtx)
                 b = real.match(rp, op, binary=True, ret="list", search=search, only_addr=True)
-                rp2 = ws.write("r2.yaml", rule_text(None, name))
+                rp2 = ws.write("r2.yaml", rule_text(None, name, extra=extra))
                 a = real.match(rp2, ws.path("ref.s") if rR[1] == rA[1] else ws.write("refB.s", textB), ret="list", search=search, only_addr=True)
                 ctx.ran(2)
                 if b[:2] != a[:2]:
@@ -176,10 +183,19 @@ def run_shard(ctx):
             sel = [rng.choice([".nosuch", ".textx", "text"])]
         else:
             sel = rng.sample(all_names, rng.randint(1, len(all_names)))
-        judge(ctx, ws, blob, sel, f"elf{bits}", exec_names, all_names)
+        extra = None
+        if rng.random() < 0.4:
+            base = min(s.addr for s in secs)
+            extra = rng.choice([
+                {"valid_addr_range": {"min": hex(base), "max": hex(base + rng.choice([0x10, 0x80, 0xfff]))}},
+                {"valid_addr_range": {"min": "0", "max": "ffffffffffff"}, "style": "att"},
+                {"style": "att", "mnemonics-full-match": True},
+                {"operands-full-match": True, "valid_addr_range": {"min": hex(base + 0x20), "max": hex(base + 0x40)}},
+            ])
+        judge(ctx, ws, blob, sel, f"elf{bits}", exec_names, all_names, extra)
 
 
 def replay(ctx, case):
     install()
     import base64
-    judge(ctx, real.Workspace(), base64.b64decode(case["object_b64"]), case["sections"], "replay", ["?", "?"], [])
+    judge(ctx, real.Workspace(), base64.b64decode(case["object_b64"]), case["sections"], "replay", ["?", "?"], [], case.get("extra_config"))
